@@ -260,8 +260,9 @@ _public_ int m_mod_ps_subscribe(m_mod_t *mod, const char *topic, m_src_flags fla
             ev_src_t *old_sub = m_map_get(mod->subscriptions, topic);
             if (old_sub) {
                 if (old_sub->flags == flags) {
-                    /* Only update userptr */
+                    /* Only update userptr; the subscription keeps its own compiled regex */
                     old_sub->userptr = userptr;
+                    regfree(&regex);
                     return 0;
                 }
                 /*
